@@ -41,6 +41,13 @@ def is_valid_rule(rep, prog):
         ok_shape = len(body) == 1 and isinstance(body[0], ast.Try) and len(body[0].body) == 1 and isinstance(body[0].body[0], ast.Return) \
             and not body[0].orelse and not body[0].finalbody
         if not ok_shape:
+            calls_validate = any(isinstance(c, ast.Call) and isinstance(c.func, ast.Name) and c.func.id == 'validate' for c in ast.walk(fn))
+            if not calls_validate:
+                # a second copy of the rules: nothing ties its verdict (or what escapes from it) to validate()
+                rep.fail('C01.is_valid', file, 'is_valid', src(body[-1])[:120] if body else 'def is_valid', fn.lineno,
+                         'is_valid() does not forward to validate(): it re-states the rules, so its verdict can differ from validate() '
+                         'and the exceptions of its own operations are not those validate() is checked for')
+                continue
             raise AnalysisError('%s:%d is_valid() is not a single try/except around one return' % (file, fn.lineno))
         tr = body[0]
         ret = tr.body[0].value
